@@ -19,7 +19,7 @@ META = {
                  "vs an independent RFC 4251 codec",
     "text": "(a) all sequences of <=3 fields over a 34-value alphabet of byte/boolean/uint32/uint64/adaptive-int/"
             "string/text/name-list/mpint boundary values (40 495 sequences; thorough: 49-value alphabet <=3 plus "
-            "18-value alphabet at length 4, 228 626 sequences): bytes of every RFC 4251 typed field equal the "
+            "18-value alphabet at length 4, 225 076 sequences): bytes of every RFC 4251 typed field equal the "
             "reference encoding, every value reads back unchanged and in order, and after every get_* "
             "get_so_far()+get_remainder() is the whole message; (b) every integer in [-70 000, 70 000] (thorough "
             "[-2^22, 2^22] plus +-300 windows around +-2^23, 2^24, 2^31, 2^32, 2^63, 2^64) and +-2^k, +-(2^k+-1) "
